@@ -598,8 +598,14 @@ def _loop_driver(ctx, b, h, body):
                 # follow straight-line to the switch
                 cur = nb
                 hops = 0
-                while cur is not None and hops < 4 and b.blocks[cur]['term']['t'] == 'goto':
-                    cur = b.blocks[cur]['term']['target']; hops += 1
+                while cur is not None and hops < 6:
+                    tt_ = b.blocks[cur]['term']
+                    if tt_['t'] == 'goto':
+                        cur = tt_['target']; hops += 1
+                    elif tt_['t'] == 'call' and str(prog.call_targets(b, tt_)[1] or '').endswith(('Try>::branch', 'Try::branch')) and tt_.get('target') is not None:
+                        cur = tt_['target']; hops += 1      # `iter.next()?`: the None case is the Break arm of the switch that follows
+                    else:
+                        break
                 if cur is not None and b.blocks[cur]['term']['t'] == 'switch':
                     for s in b.succs(cur):
                         if s not in body:
